@@ -155,27 +155,41 @@ theorem sh_stackSlice (lo hi lo' hi' : Int) (h1 : lo' = lo + bp) (h2 : hi' = hi 
         simp only [Array.getElem?_toList, Array.getElem?_eq_getElem l1, Array.getElem?_eq_getElem l2, hs]
       · simp only [hlt, if_false]
 
+theorem sh_stackSet_grow (i j : Int) (v : V) (hj : j = i + bp) (hi : i ≤ N) :
+    RelS (Sh bp k N a) (PQ (fun _ _ => True) (Sh bp k (max N (i.toNat + 1)) a)) (stackSet i v) (stackSet j v) :=
+  sh_stackSet i j v hj _ (by intro h0; omega)
+
 /-! ### automation -/
 
 syntax "sh_prim" : tactic
+syntax "sh1" : tactic
+syntax "shrun" : tactic
 macro_rules | `(tactic| sh_prim) => `(tactic| first
   | exact sh_getSp
   | exact sh_setSp _ _ (by omega)
   | exact sh_stackGet _ _ (by omega) (by omega)
-  | exact sh_stackSet _ _ _ (by omega) (max _ (Int.toNat _ + 1)) (by omega)
+  | exact sh_stackSet_grow _ _ _ (by omega) (by omega)
   | exact sh_stackSet _ _ _ (by omega) _ (fun _ => Or.inl (Nat.le_refl _))
   | exact sh_stackSlice _ _ _ _ (by omega) (by omega) (by omega)
   | exact sh_pushV _ (by omega)
   | exact sh_setIp _
   | exact sh_bumpIp _
   | exact sh_setModule _ _
-  | (apply sh_foot; foot; all_goals fail "foot: stuck"))
+  | (apply sh_foot; foot; all_goals fail "foot: stuck")
+  | (refine RelS.forIn_upto (VR := Eq) _ _ _ _ _ rfl ?_
+     intro i__ hi__ b__ b'__ hb__
+     subst hb__
+     shrun)
+  | (refine RelS.forIn_upto (VR := fun _ _ => True) _ _ _ _ _ trivial ?_
+     intro i__ hi__ b__ b'__ hb__
+     shrun))
 
-syntax "sh1" : tactic
 macro_rules | `(tactic| sh1) => `(tactic| first
   | exact sh_failWith _
   | exact sh_next (by omega) (by omega)
   | exact RelS.errL _
+  | exact RelS.pure (fun _ _ h => ⟨Or.inl ⟨_, _, rfl, rfl, rfl⟩, Sh.mono h (by omega)⟩)
+  | exact RelS.pure (fun _ _ h => ⟨Or.inl ⟨_, _, rfl, rfl, trivial⟩, Sh.mono h (by omega)⟩)
   | ((with_reducible apply RelS.bindV)
      · sh_prim
      intro x__ y__ h__
@@ -204,7 +218,6 @@ macro_rules | `(tactic| sh1) => `(tactic| first
   | simp only [bind_assoc, pure_bind]
   | dsimp only)
 
-syntax "shrun" : tactic
 macro_rules | `(tactic| shrun) => `(tactic| repeat sh1)
 
 theorem sh_execPop (ha : a ≤ N) (hL : L ≤ N) : RelS (Sh bp k N a) (PostC bp k L) execPop execPop := by
@@ -287,6 +300,11 @@ theorem sh_execLoadModule (ha : a ≤ N) (hL : L ≤ N) : RelS (Sh bp k N a) (Po
   unfold execLoadModule; shrun
 theorem sh_execStoreModule (ha : a ≤ N) (hL : L ≤ N) : RelS (Sh bp k N a) (PostC bp k L) execStoreModule execStoreModule := by
   unfold execStoreModule; shrun
+
+theorem sh_execArray (ha : a ≤ N) (hL : L ≤ N) : RelS (Sh bp k N a) (PostC bp k L) execArray execArray := by
+  unfold execArray; shrun
+theorem sh_execClosure (ha : a ≤ N) (hL : L ≤ N) : RelS (Sh bp k N a) (PostC bp k L) execClosure execClosure := by
+  unfold execClosure; shrun
 
 end
 end UgoVerif.Proofs.Shift
